@@ -11,6 +11,7 @@ import (
 
 	"github.com/saucelabs/forwarder"
 	"github.com/saucelabs/forwarder/verifharness/lib"
+	"github.com/saucelabs/forwarder/verifharness/wiring"
 )
 
 const originHost = "origin-a.test"
@@ -357,6 +358,7 @@ func main() {
 	run.Floor("keepalive_followups", int64(nConns/2))
 	run.Floor("gate_streams_completed", 4)
 	run.Floor("gate_sequences_completed", 4)
+	wiring.Run(run, "C02")
 	run.Finish()
 }
 
